@@ -169,6 +169,8 @@ func init() {
 			exhaustivePart("exhaustive-sibling-has-key", c11),
 			randomPart("random", 800, 12000, c11r),
 			{Name: "expiry-in-sibling-collection", Timeout: 120 * time.Second, Count: func(t string) int { return tierN(t, 4, 40) }, Run: siblingExpiryBatch},
+			nonInterferencePart("views-queries-noninterference", 200, 3000),
+			{Name: "stale-handle-after-drop", Timeout: 60 * time.Second, Count: func(t string) int { return tierN(t, 120, 2400) }, Run: staleHandleScenario},
 		},
 		Floor: cellsFloor(300),
 	})
